@@ -1,7 +1,7 @@
-\* C03 exhaustive, thorough: 1 block allocated (lengths 0..3), 4 calls deep
+\* C03 exhaustive, thorough: 1 block allocated (lengths 0..3), 2 handles, 4 calls deep
 SPECIFICATION MCSpec
 CONSTANTS
-  Handles = {0, 1, 2}
+  Handles = {0, 1}
   Fill = 14
   Strict = TRUE
   KeepHist = FALSE
